@@ -129,15 +129,24 @@ def model_deps_for_extract():
 # --------------------------------------------------------------------------
 # Rust side
 # --------------------------------------------------------------------------
-def harness_build(profile="debug", hooks=True, features=None, extra_rustflags="", timeout=1200, tag=None):
+def harness_build(profile="debug", hooks=True, features=None, extra_rustflags="", timeout=1200, tag=None, hdir=None, target=None):
     """Build the harness against /repo's working tree. Returns (ok, exe_or_msg)."""
-    hdir = os.path.join(VERIF, "harness")
+    if hdir is None and REPO != "/repo":
+        # checks running against a copy of the repository (VERIF_REPO): point the harness at it
+        hdir = os.path.join(BUILD, "harness-alt")
+        os.makedirs(hdir, exist_ok=True)
+        shutil.copytree(os.path.join(VERIF, "harness", "src"), os.path.join(hdir, "src"), dirs_exist_ok=True)
+        cargo = open(os.path.join(VERIF, "harness", "Cargo.toml")).read().replace('path = "/repo"', f'path = "{REPO}"')
+        cp = os.path.join(hdir, "Cargo.toml")
+        if not os.path.exists(cp) or open(cp).read() != cargo:
+            open(cp, "w").write(cargo)
+    hdir = hdir or os.path.join(VERIF, "harness")
     lock = os.path.join(hdir, "Cargo.lock")
     if not os.path.exists(lock):
         shutil.copy(os.path.join(REPO, "Cargo.lock"), lock)
     tag = tag or (("hook" if hooks else "plain") + ("-" + ("_".join(features) or "none") if features is not None else "")
                   + ("-" + re.sub(r"[^a-z0-9]+", "", extra_rustflags.lower()) if extra_rustflags else ""))
-    target = os.path.join(BUILD, "target-" + tag)
+    target = target or os.path.join(BUILD, "target-" + tag)
     flags = (f"--cfg {GUARD} " if hooks else "") + extra_rustflags
     cmd = ["cargo", "build", "--offline", "--quiet"]
     if profile == "release":
@@ -280,3 +289,30 @@ def write_replay(pid, name, payload):
         json.dump(payload, f, indent=1)
         f.write("\n")
     return p
+
+
+# --------------------------------------------------------------------------
+# emulated NEON / simd128 builds (scratch copy outside /repo and /verif, removed by the caller)
+# --------------------------------------------------------------------------
+def emu_build(arch, profile="debug"):
+    """returns (ok, exe_or_msg, scratch_dir)"""
+    import tempfile
+    scratch = tempfile.mkdtemp(prefix=f"memchr-emu-{arch}-", dir="/tmp")
+    rc, out = sh([sys.executable, os.path.join(VERIF, "tools", "emu_build.py"), arch, scratch, "--repo", REPO])
+    if rc != 0:
+        return False, out[-2000:], scratch
+    ok, exe = harness_build(profile=profile, hooks=True, extra_rustflags=f'--cfg memchr_emu="{arch}"',
+                            hdir=os.path.join(scratch, "harness"), target=os.path.join(scratch, "target"))
+    return ok, exe, scratch
+
+def emu_cases(cases, arch):
+    """re-target x86 cases at the emulated architecture"""
+    out = []
+    for c in cases:
+        if " cpu=" in c or " be=avx2" in c or " isa=avx2" in c or " be=swar" in c or " low=1" in c:
+            continue
+        c = c.replace(" be=sse2", f" be={arch}").replace(" isa=sse2", f" isa={arch}")
+        if " be=top" in c or c.startswith(("mm ", "mmiter ", "hist ", "pfprefilter ")):
+            c = c + f" cpu={arch}"
+        out.append(c)
+    return out
